@@ -397,6 +397,9 @@ func runC16(c *Ctx) {
 	errF := fieldByTypeString(scanner, "error")
 	bufF := fieldByTypeString(scanner, "*bufio.Reader")
 	curF := fieldByTypeString(scanner, "bytes.Buffer")
+	if curF == nil {
+		curF = fieldByTypeString(scanner, "[]byte") // the token accumulated in a plain byte slice
+	}
 	if stF == nil || errF == nil || bufF == nil || curF == nil {
 		c.undecided("ANCHOR", "shell.Scanner fields", 0, "expected fields (state, error, *bufio.Reader, bytes.Buffer) not found")
 		return
@@ -925,6 +928,26 @@ func checkInterp(c *Ctx, m *shellModel, nextFn *ssa.Function, stF, errF, bufF, c
 			}
 		}
 	})
+	allInstrs(nextFn, func(in ssa.Instruction) {
+		// byte-slice form: s.tok = s.tok[:0] (or nil)
+		st, ok := in.(*ssa.Store)
+		if !ok {
+			return
+		}
+		fa, ok := st.Addr.(*ssa.FieldAddr)
+		if !ok {
+			return
+		}
+		if _, f := fieldVarOf(fa); !sameField(f, curF) || !dominatesInstr(st, rd) || st.Block() == loopHead {
+			return
+		}
+		if isNilConst(st.Val) {
+			resetOK = true
+		}
+		if sl, ok := st.Val.(*ssa.Slice); ok && sl.Low == nil && sl.High != nil && isConstInt(sl.High, 0) && isLoadOfField(sl.X, curF) {
+			resetOK = true
+		}
+	})
 	c.judge(resetOK, "R-FST-INTERP", key+":cur-reset", nextFn.Pos(), "token buffer reset before the scanning loop", "token buffer is not reset at the start of Next: tokens would run together")
 
 	// the entry load: update[load st][classOf[c]]
@@ -1108,7 +1131,11 @@ func checkInterp(c *Ctx, m *shellModel, nextFn *ssa.Function, stF, errF, bufF, c
 				case *ssa.Store:
 					if _, ok := x.Addr.(*ssa.IndexAddr); !ok {
 						if _, ok := x.Addr.(*ssa.Alloc); !ok {
-							writes = append(writes, "?store")
+							if seq, ok := sliceAppendSeq(x, curF, cbyte); ok {
+								writes = append(writes, seq...)
+							} else {
+								writes = append(writes, "?store")
+							}
 						}
 					}
 				case *ssa.Return:
@@ -1242,4 +1269,56 @@ func refName(r refState) string {
 		return n + "+open"
 	}
 	return n
+}
+
+// sliceAppendSeq: st is  s.tok = append(s.tok, e1, e2, …)  on the token field kept as a byte slice; returns the
+// appended bytes symbolically (as bufWriteSeq does for a bytes.Buffer).
+func sliceAppendSeq(st *ssa.Store, curF *types.Var, cbyte ssa.Value) ([]string, bool) {
+	fa, ok := st.Addr.(*ssa.FieldAddr)
+	if !ok {
+		return nil, false
+	}
+	if _, f := fieldVarOf(fa); !sameField(f, curF) {
+		return nil, false
+	}
+	ap, ok := isBuiltinCall(st.Val, "append")
+	if !ok || len(ap.Call.Args) != 2 || !isLoadOfField(ap.Call.Args[0], curF) {
+		return nil, false
+	}
+	symb := func(v ssa.Value) string {
+		if v == cbyte {
+			return "c"
+		}
+		if i, ok := constInt(v); ok {
+			return fmt.Sprintf("%d", i)
+		}
+		if cv, ok := v.(*ssa.Convert); ok && cv.X == cbyte {
+			return "c"
+		}
+		return "?" + v.Name()
+	}
+	sl, ok := ap.Call.Args[1].(*ssa.Slice)
+	if !ok {
+		return []string{"?"}, true
+	}
+	al, ok := sl.X.(*ssa.Alloc)
+	if !ok {
+		return []string{"?"}, true
+	}
+	elems := map[int64]string{}
+	for _, r := range referrersOf(al) {
+		if ia, ok := r.(*ssa.IndexAddr); ok {
+			idx, _ := constInt(ia.Index)
+			for _, r2 := range referrersOf(ia) {
+				if s2, ok := r2.(*ssa.Store); ok {
+					elems[idx] = symb(s2.Val)
+				}
+			}
+		}
+	}
+	var out []string
+	for i := int64(0); i < int64(len(elems)); i++ {
+		out = append(out, elems[i])
+	}
+	return out, true
 }
